@@ -1,0 +1,58 @@
+// Copyright 2026 Dolthub, Inc.
+//
+// Licensed under the Apache License, Version 2.0 (the "License");
+// you may not use this file except in compliance with the License.
+// You may obtain a copy of the License at
+//
+//     http://www.apache.org/licenses/LICENSE-2.0
+//
+// Unless required by applicable law or agreed to in writing, software
+// distributed under the License is distributed on an "AS IS" BASIS,
+// WITHOUT WARRANTIES OR CONDITIONS OF ANY KIND, either express or implied.
+// See the License for the specific language governing permissions and
+// limitations under the License.
+
+//go:build verif
+
+package tree
+
+// Machine-checked contracts for /verif (comment-only; see /verif/DESIGN.md §2.2).
+
+// ---- large values are stored faithfully (C16)
+
+//@ ghost_global verif_ghost
+
+// BlobBuilder.Reset leaves no state of the previous value behind: the tree built for a value does not depend on what
+// the (pooled) builder wrote before
+//@ func (*BlobBuilder).Reset
+//@   property C16
+//@   nopanic
+//@   ensures  b.wr == nil && b.lastN == nil && b.buf == nil && b.vals == nil && b.subtrees == nil
+//@   ensures  b.topLevel == 0 && b.levelCap == 0
+
+// openJsonDoc: event marker remembering the documents in the order they were opened
+//@ func openJsonDoc
+//@   property C16
+//@   trusted event marker only (opens the JSON document an adaptive value denotes)
+//@   modifies nothing
+//@   ghost_set verif_ghost.jFirst = verif_ghost.jSecond
+//@   ghost_set verif_ghost.jSecond = result0
+
+//@ extern (github.com/dolthub/dolt/go/store/prolly/tree.IndexedJsonDocument).Compare as verif_x_idoc_Compare
+//@   modifies nothing
+//@   ghost_set verif_ghost.jCalled = true
+//@   ghost_set verif_ghost.jOther = other
+//@   ghost_set verif_ghost.jCmp = cmp
+
+// compareJsonAdaptiveValues: NULL sorts first; when the comparison is delegated to an indexed document, the result is
+// that document's answer if it is the LEFT operand and the negated answer if it is the RIGHT operand (so that
+// compare(l, r) and compare(r, l) have opposite signs whichever stored form each side has)
+//@ func compareJsonAdaptiveValues
+//@   property C16
+//@   requires !verif_ghost.jCalled
+//@   ensures  result1 == nil && verif_ghost.jCalled && verif_ghost.jFirst != verif_ghost.jSecond && verif_ghost.jOther == verif_ghost.jSecond ==> result0 == verif_ghost.jCmp
+//@   ensures  result1 == nil && verif_ghost.jCalled && verif_ghost.jFirst != verif_ghost.jSecond && verif_ghost.jOther == verif_ghost.jFirst ==> result0 == -verif_ghost.jCmp
+//@   ensures  result1 == nil && !verif_ghost.jCalled && verif_ghost.jFirst == nil && verif_ghost.jSecond != nil ==> result0 == -1
+//@   ensures  result1 == nil && !verif_ghost.jCalled && verif_ghost.jFirst != nil && verif_ghost.jSecond == nil ==> result0 == 1
+//@   ensures  result1 == nil && verif_ghost.jFirst == nil && verif_ghost.jSecond == nil ==> result0 == 0
+//@   also_modifies verif_ghost.jFirst, verif_ghost.jSecond, verif_ghost.jCalled, verif_ghost.jOther, verif_ghost.jCmp
